@@ -50,7 +50,8 @@ SPECIALS = {'__eq__', '__ne__', '__hash__', '__lt__', '__le__', '__gt__', '__ge_
             '__get__', '__set__', '__delete__', '__enter__', '__exit__', '__new__',
             '__init_subclass__', '__class_getitem__'}
 CACHING = {'lru_cache', 'cache', 'cached_property', 'memoize', 'memoized'}
-KIND_DECOS = {'property', 'staticmethod', 'classmethod', 'abstractmethod', 'contextmanager'}
+KIND_DECOS = {'property', 'abstractmethod', 'contextmanager'}      # staticmethod on a method that
+# does not use self leaves every `self.m(...)` call working: not a change of meaning
 
 STDLIB = {
     'keyword.kwlist': list(keyword.kwlist),
